@@ -25,7 +25,7 @@ Require Import Cirbo.Model.Base Cirbo.Model.Gate Cirbo.Model.Circuit Cirbo.Model
 Require Import Cirbo.Proofs.TraverseInv Cirbo.Proofs.PassRebuild Cirbo.Proofs.PassRR Cirbo.Proofs.PassMU
         Cirbo.Proofs.PassMD Cirbo.Proofs.PassPipeline Cirbo.Proofs.PassTotal Cirbo.Proofs.PassAll
         Cirbo.Proofs.PassWitness Cirbo.Proofs.PassEntry.
-Require Import Cirbo.Generated.PassesGen Cirbo.Proofs.PassesGen.
+Require Import Cirbo.Generated.PassesGen Cirbo.Generated.PipelineGen Cirbo.Proofs.PassesGen.
 
 (* ---- RemoveRedundantGates() ---- *)
 Theorem C03_remove_redundant_gates : forall c c',
@@ -223,7 +223,16 @@ Theorem C03_passes_regenerated :
      | TMD => gen_MergeDuplicateGates_transform c
      | TME => gen_MergeEquivalentGates_transform c
      | TComp _ => Err PyTypeError
-     end = transform_leaf t c).
+     end = transform_leaf t c) /\
+  (* the pipeline machinery (Generated/PipelineGen.v): the class attribute __idempotent__, the pre / post
+     transformer lists that the constructors hand to Transformer.__init__ (as_distinct of a leaf is built from
+     them), the reduction loop Transformer.linearize_reduce_transformers and cleanup are regenerated;
+     linearize_transformers / as_distinct / apply_transformers / transform / `|` / the __eq__ methods are not *)
+  (forall t, gen_is_idempotent t = is_leaf_idempotent t) /\
+  (forall t, (forall ts, t <> TComp ts) ->
+     as_distinct t = linearize (gen_pre_transformers t) ++ [t] ++ linearize (gen_post_transformers t)) /\
+  (forall ts, gen_linearize_reduce_transformers ts = Ok (linearize_reduce ts)) /\
+  (forall c heavy, gen_cleanup c heavy = cleanup c heavy).
 Proof. exact passes_regenerated. Qed.
 
 (* ---- non-vacuity: inputs a b u; n1 = NOT a; n2 = NOT n1; g1 = AND(n2,b); g2 = AND(b,n2);
